@@ -30,7 +30,11 @@ def f64bits(x):
     return _struct.unpack("<Q", _struct.pack("<d", x))[0]
 
 
-def value_sets(path, go, rng):
+ESCAPE_VALUES = ["C:\\temp\r", "C:\\temp", "a\"\r", "a\"", "Host: example.org\r\n", "Host: example.org\n", "a\rb", "a\\b\r", "\r\\", "\\",
+                 "q\"\r", "q\"", "tab\there\\", "back`tick\\", "\x07\x08\x0c\x0b", "\x01", "\r", "`", "\\\r\n", "\\\n"]
+
+
+def value_sets(path, go, rng, escapes=False):
     """grid of Set dicts for a field of Go type `go`"""
     if go in INT_TYPES:
         bits, signed = INT_TYPES[go]
@@ -43,7 +47,7 @@ def value_sets(path, go, rng):
         return [{"path": path, "vk": "float64", "bits": str(f64bits(v))} for v in (0.0, -0.0, 0.5, 1.0, 1.5, 2.5, -2.5, 10.0, 100.0, 1e300, float("inf"), float("nan"))]
     if go == "string":
         return [{"path": path, "vk": "string", "str": s.encode().hex()} for s in ("", "a", "ab", "abc", "prefix_x", "x_suffix", "héllo", "日本語", "a1b2", "ABC", "12", "admin", "x y", "90s", "1m30s",
-                                                                                  "[", "a+(", "new", "new york", "\"", "!", "tokyo", "Admin1", "xABCx", "a\nb", "x.go", "É", "a  b", "a b", "a\tb", " a", "a ", "A", "x  y", "a\\b", "a\"b", "a'b")] + \
+                                                                                  "[", "a+(", "new", "new york", "\"", "!", "tokyo", "Admin1", "xABCx", "a\nb", "x.go", "É", "a  b", "a b", "a\tb", " a", "a ", "A", "x  y", "a\\b", "a\"b", "a'b") + (tuple(ESCAPE_VALUES) if escapes else ())] + \
                [{"path": path, "vk": "string", "str": "ff"}]
     if go == "bool":
         return [{"path": path, "vk": "bool", "bool": b} for b in (True, False)]
@@ -293,6 +297,12 @@ FIXED = [
     ("string", "value.matches(this.S)"), ("string", "matches(this.S, value)"), ("string", "value.matches(this.S + '$')"), ("[]string", "value.all(x, x.matches(this.S))"),
     ("string", "this.S.matches(value)"), ("string", "value.matches('^a' + 'b')"),
     ("int", "value != 0 && 10 / value > 1"), ("int", "value == 0 || 10 % value == 1"), ("string", "value.contains('\"')"), ("string", "value == 'a\\\\b'"),
+    # string constants whose Go rendering needs care: escapes of every CEL form, control characters next to backslashes and quotes
+    # (a raw Go literal drops carriage returns and cannot hold a backquote), CEL raw strings
+    ("string", "!value.endsWith('\\\\temp\\r')"), ("string", "value == 'a\"\\r'"), ("string", "value.matches('^[\\\\w-]+: .*\\r\\n$')"), ("string", "value == 'a\\rb'"),
+    ("string", "value.contains('\\x0d')"), ("string", "value == '\\u000d\\\\'"), ("string", "value != \"q\\\"\\015\""), ("string", "value in ['a\\\\b\\r', 'c']"),
+    ("string", "value == 'tab\\there\\\\'"), ("string", "value == r'a\\b'"), ("string", "value == 'back`tick\\\\'"), ("string", "value.startsWith('\\a\\b\\f\\v')"),
+    ("string", "value == '\\001'"), ("string", "value == 'a\\nb'"), ("string", "value.contains('`')"), ("string", "value == '\\\\\\r\\n'"),
 ]
 
 
@@ -344,7 +354,7 @@ def scenario_for(sid, vtype, expr, rng, max_cases):
     for nm, go in COMPANIONS:
         fields.append(fld(nm, [], typeref(go)))
     cases = []
-    vgrid = value_sets("V", vtype, rng)
+    vgrid = value_sets("V", vtype, rng, escapes=any(c in expr for c in "\\`\""))
     base = [dict(v, path=nm) for nm, v in COMPANION_DEFAULT.items()]
     for v in vgrid:
         cases.append({"sets": [v] + base})
@@ -355,6 +365,6 @@ def scenario_for(sid, vtype, expr, rng, max_cases):
                 sets = [v] + [dict(alt, path=nm) if b["path"] == nm else b for b in base]
                 cases.append({"sets": sets})
     if len(cases) > max_cases:
-        cases = cases[: len(vgrid)] + rng.sample(cases[len(vgrid):], max_cases - len(vgrid))
+        cases = cases[: len(vgrid)] + rng.sample(cases[len(vgrid):], max(0, max_cases - len(vgrid)))
     st = struct("T", fields, cases)
     return scenario(sid, [st], imports=["time"])
